@@ -227,7 +227,7 @@ static std::string jesc(const std::string& s) {
     }
     return o;
 }
-static const char* const kStrat[] = {"rw", "burst", "pct", "stall", "?"};
+static const char* const kStrat[] = {"rw", "burst", "pct", "stall", "hunt", "?"};
 
 static std::string result_json(const Job& j, const Result& r, bool with_arrays) {
     std::string s = "{";
@@ -239,7 +239,7 @@ static std::string result_json(const Job& j, const Result& r, bool with_arrays) 
              "\"nfibers\":%u,\"window\":%u,\"strategy\":\"%s\",\"tso\":%u,\"faults_on\":%u,\"P\":%u,\"exit\":%d,\"signal\":%d",
              (unsigned long long)r.h.steps, (unsigned long long)r.h.switches, (unsigned long long)r.h.preempts, (unsigned long long)r.h.sim_ns,
              (unsigned long long)r.h.hash, (unsigned long long)r.h.sig_hash, (unsigned long long)r.h.choices, r.h.nfibers, r.h.window,
-             kStrat[r.h.strategy < 4 ? r.h.strategy : 4], r.h.tso, r.h.faults_on, r.h.P, r.h.exit_code, r.h.sig);
+             kStrat[r.h.strategy < 5 ? r.h.strategy : 5], r.h.tso, r.h.faults_on, r.h.P, r.h.exit_code, r.h.sig);
     s += b;
     s += ",\"faults\":{";
     for (uint32_t i = 0; i < r.h.n_faults; ++i) { snprintf(b, sizeof b, "%s\"%s\":%u", i ? "," : "", r.h.faults[i].name, r.h.faults[i].n); s += b; }
@@ -312,7 +312,7 @@ static int stripe_main(const char* self, int argc, char** argv) {
         steps += r.h.steps; switches += r.h.switches; preempts += r.h.preempts; sim_ns += r.h.sim_ns;
         if (r.h.tso) ++tso_runs;
         if (r.h.faults_on) ++fault_runs;
-        strat[kStrat[r.h.strategy < 4 ? r.h.strategy : 4]]++;
+        strat[kStrat[r.h.strategy < 5 ? r.h.strategy : 5]]++;
         uint64_t nf = 0;
         for (uint32_t k = 0; k < r.h.n_faults; ++k) { faults[r.h.faults[k].name] += r.h.faults[k].n; nf += r.h.faults[k].n; }
         for (uint32_t k = 0; k < r.h.n_probes; ++k) { probes_runs[r.h.probes[k].name]++; probes_hits[r.h.probes[k].name] += r.h.probes[k].n; }
